@@ -14,12 +14,13 @@ import os
 from ..core import scratch_dir, rm, pmap, HarnessError
 from .. import farm
 
-FORMS = ("bare", "modattr", "alias", "wrapper", "comp", "lambda", "partial")
+FORMS = ("bare", "modattr", "alias", "wrapper", "comp", "lambda", "partial", "modattr-local")
 KINDS = ("M", "E", "P")  # memento auto, memento explicit, plain
 
 
 def ref_expr(j, form):
-    return {"bare": "n%d" % j, "modattr": "selfmod.n%d" % j, "alias": "n%d_alias" % j, "wrapper": "n%d_w" % j}.get(form, "n%d" % j)
+    return {"bare": "n%d" % j, "modattr": "selfmod.n%d" % j, "modattr-local": "selfmod.n%d" % j, "alias": "n%d_alias" % j,
+            "wrapper": "n%d_w" % j}.get(form, "n%d" % j)
 
 
 def call_expr(e, form):
@@ -71,7 +72,12 @@ def render(n, kinds, edges, forms, layout=None):
                 else:
                     e = "%s.n%d" % (MODREF[(mod, layout[j])], j)
                 out.append("    if via == 'n%d':" % j)
-                out.append("        return ['n%d', %s]" % (i, call_expr(e, forms[(i, j)])))
+                if forms[(i, j)] == "modattr-local" and layout[j] == mod:
+                    # the result goes to a local variable named like the last component of the dotted reference
+                    out.append("        n%d_alias = %s" % (j, call_expr("selfmod.n%d_alias" % j, "bare")))
+                    out.append("        return ['n%d', n%d_alias]" % (i, j))
+                else:
+                    out.append("        return ['n%d', %s]" % (i, call_expr(e, forms[(i, j)])))
             out.append("    if via is None and hid is not None:")
             out.append("        return ['n%d', getattr(importlib.import_module(hid[0]), hid[1])(0)]" % i)
             out.append("    if via is None and fnarg is not None:")
@@ -299,7 +305,7 @@ def run(ctx):
     ctx.rule = ("all digraphs without self loops over N nodes x all kind assignments over {memento auto, memento explicit, "
                 "plain} with at least one auto memento node (N<=3 exhaustive; thorough: N=4 up to node relabelling), edge "
                 "reference forms by covering rotation over {bare, module.attr, alias, wrapper, inside a comprehension, inside a lambda, "
-                "through functools.partial} (all assignments for N=2); per "
+                "through functools.partial, module.attr assigned to a local of the same name} (all assignments for N=2); per "
                 "graph: transitive / direct / graph links of every memento node vs reachability, and every hidden or "
                 "argument-passed call u=>v and u->w=>v through every modifier vs the closure; graphs with N in {2,3} additionally with the "
                 "nodes spread over a.py, the package __init__.py and a sibling module. distinct = graphs.")
